@@ -1225,6 +1225,31 @@ fn native_spec() {
                 }
             }
         }
+    } else if target == "flag_subcommand_aliases_to" {
+        // C09/C08: a flag subcommand is entered through its flag or any of its flag aliases - also when it has only aliases
+        for with_primary in [false, true] {
+            let mut gc = Command::new("gc").long_flag_alias("collect").visible_long_flag_alias("sweep").short_flag_alias('g').visible_short_flag_alias('G')
+                .arg(Arg::new("deep").long("deep").action(ArgAction::SetTrue));
+            if with_primary {
+                gc = gc.long_flag("gc").short_flag('c');
+            }
+            let cmd = Command::new("p").subcommand(gc).subcommand(Command::new("other").long_flag("other"));
+            let mut toks = vec!["--collect", "--sweep", "-g", "-G"];
+            if with_primary {
+                toks.push("--gc");
+                toks.push("-c");
+            }
+            for tok in toks {
+                let got = cmd.clone().try_get_matches_from(["p", tok, "--deep"]).ok().and_then(|m| m.subcommand().map(|(n, sm)| (n.to_owned(), sm.get_flag("deep"))));
+                if got != Some(("gc".to_owned(), true)) {
+                    println!("SPEC-REPLAY MISMATCH target=flag_subcommand_aliases_to case=primary flag declared={with_primary} token {tok}: dispatched to {got:?}, expected gc with --deep");
+                }
+            }
+            let got = cmd.clone().try_get_matches_from(["p", "--nope"]).err().map(|e| e.kind());
+            if got != Some(ErrorKind::UnknownArgument) {
+                println!("SPEC-REPLAY MISMATCH target=flag_subcommand_aliases_to case=unknown long flag: {got:?}");
+            }
+        }
     } else if target == "subcommand_dispatch_guard" {
         // C09: a value of a multi-value option / positional that spells a subcommand name stays a value (unless subcommand_precedence_over_arg)
         for prec in [false, true] {
